@@ -25,6 +25,9 @@ ASSUMPTIONS = [
     'parenthesis bodies are sequences of complete tokens; bare block keywords '
     '(BEGIN, END, DECLARE, IF, END IF, CASE) are used only in non-CREATE '
     'statements (inside CREATE they drive the procedural counter: C17)',
+    'replacement bodies of quote-delimited regions contain no backslash '
+    '(for the lexer a backslash before a quote is an escape, so whether such '
+    'a body "lacks the terminator" depends on what follows the region)',
     'a block comment after the last ; is a statement of its own for a '
     'non-validating splitter, so the script tail is whitespace only',
 ]
